@@ -76,6 +76,16 @@ pub fn extreme() -> Vec<(String, Tree)> {
     vec![("lottery".to_string(), one), ("nested-lottery".to_string(), nested), ("lottery-rare-first".to_string(), first)]
 }
 
+/// ... and the other end: a biased 3 x 3 game whose payoffs are small integers times 2^-1030 - every payoff, utility and
+/// regret is a subnormal number (exact: 44 bits are left)
+pub fn tiny_units() -> (String, Tree, f64) {
+    let unit = 2f64.powi(-1030);
+    let pay = [[2i64, -1, 0], [-1, 3, -2], [0, -2, 4]];
+    let reply = |i: usize| Tree::P { pl: 2, info: "y".into(), kids: (0..3).map(|j| PKid { a: format!("b{j}"), t: Tree::T { pay: Num::F(pay[i][j] as f64 * unit) } }).collect() };
+    let t = Tree::P { pl: 1, info: "x".into(), kids: (0..3).map(|i| PKid { a: format!("a{i}"), t: reply(i) }).collect() };
+    ("tiny-units".to_string(), t, unit)
+}
+
 /// strictly dominated actions for both players
 pub fn dominated() -> Tree {
     let resp = |a: i64| player(2, "y", vec![("l", term(a)), ("m", term(a + 3)), ("r", term(a - 1))]);
